@@ -216,6 +216,18 @@ def gen_hdc_cases(rng, n, thorough):
                "limits": limits, "deltas": deltas}
 
 
+def gen_int_grid_cases(rng, n):
+    """limits and deltas given as Python ints (whole-number grids): np.arange then yields integer cell centres"""
+    for _ in range(n):
+        n_dim = 2 if rng.integers(0, 3) else 3
+        m = doubles.random_model(rng, n_dim=n_dim)
+        hi = [int(rng.integers(12, 60 if n_dim == 2 else 24)) for _ in range(n_dim)]
+        d = [int(rng.choice([1, 1, 2])) for _ in range(n_dim)]
+        yield {"part": "C", "mode": "doubles", "alpha": float(10 ** rng.uniform(-1.3, -0.5)), "model": m.describe(),
+               "limits": [(0, h) for h in hi], "deltas": d if rng.integers(0, 2) else int(d[0]), "gen": "int-grid",
+               "int_grid": True}
+
+
 def gen_default_cases(rng, n):
     """default limits (Monte-Carlo marginal_icdf) and default deltas (0.25 % of the range): the contour is
     built once to learn the realised limits/deltas, which then define the replayable case"""
@@ -501,6 +513,8 @@ def main(ck):
     for case in gen_hdc_cases(rng, 1200 if thorough else 140, thorough):
         process_hdc(ck, case)
     for case in gen_default_cases(rng, 12 if thorough else 2):
+        process_hdc(ck, case)
+    for case in gen_int_grid_cases(rng, 60 if thorough else 8):
         process_hdc(ck, case)
 
 
